@@ -10,7 +10,7 @@ EXTENDS Integers, FiniteSets, TLC
 CONSTANTS Dev
 
 Decoders == {"ss-legacy-req", "ss2022-req", "ss2022-udp-c2s", "ss2022-udp-s2c", "ss-legacy-udp",
-             "vmess-req-header", "vmess-req-body", "vmess-resp-body", "trojan-req", "trojan-udp-c2s", "trojan-udp-s2c", "socks5-udp-local"}
+             "vmess-req-header", "vmess-req-body", "vmess-resp-header", "vmess-resp-body", "trojan-req", "trojan-udp-c2s", "trojan-udp-s2c", "socks5-udp-local"}
 
 Classes == {"BadAddrType",           \* address type byte not one of the protocol's three
             "DomainBeyond",          \* domain length byte larger than what follows
@@ -22,13 +22,19 @@ Classes == {"BadAddrType",           \* address type byte not one of the protoco
             "LenBeyond",             \* datagram length field larger than what follows
             "NonUtf8Domain",         \* domain bytes that are not UTF-8
             "ChunkShorterThanPadding", \* VMess body chunk: declared length smaller than the padding drawn for it (+ tag)
-            "ChunkShorterThanTag"}   \* VMess body chunk: declared length smaller than an authentication tag
+            "ChunkShorterThanTag",   \* VMess body chunk: declared length smaller than an authentication tag
+            "UnusualOptions"}        \* VMess request header, well formed, with an option mask / security code the real client never
+                                     \* sends (no option at all, unknown bits, unknown cipher code): the server may serve or refuse
+                                     \* it, and writing its first answer for such a request is part of handling it
 
 HasPadding(d) == d \in {"ss2022-req", "ss2022-udp-c2s", "ss2022-udp-s2c", "vmess-req-header"}
 HasCommand(d) == d \in {"vmess-req-header", "trojan-req"}
 HasLen(d)     == d \in {"trojan-udp-c2s", "trojan-udp-s2c"}
 IsBody(d) == d \in {"vmess-req-body", "vmess-resp-body"}
 Applies(d, c) == /\ (IsBody(d) <=> c \in {"ChunkShorterThanPadding", "ChunkShorterThanTag"})
+                 /\ (c = "UnusualOptions" => d = "vmess-req-header")
+                 \* the response header is one sealed unit of four fixed bytes: it can only be too short
+                 /\ (d = "vmess-resp-header" => c \in {"Empty", "ShorterThanFixed"})
                  \* the real client always asks for authenticated lengths, which count the bytes before the tag
                  /\ (c = "ChunkShorterThanTag" => d # "vmess-resp-body")
                  /\ (c = "PaddingBeyond" => HasPadding(d))
@@ -47,8 +53,10 @@ Init == case \in {x \in Cases : Applies(x.dec, x.class)} /\ outcome = "pending"
 StreamLike(d) == d \in {"trojan-req", "trojan-udp-c2s", "trojan-udp-s2c"}
 MayWait(x) == \/ (StreamLike(x.dec) /\ x.class \in {"LenBeyond", "AddrTruncated", "DomainBeyond", "ShorterThanFixed", "Empty"})
               \/ (x.dec \in {"ss-legacy-req", "socks5-udp-local"} /\ x.class = "Empty")
+              \* a served request whose first body chunk has not arrived in full simply waits for it
+              \/ x.class = "UnusualOptions"
 \* a domain that is not UTF-8 is still a name the resolver will refuse: accepting it as a target is allowed
-MayAccept(x) == x.class = "NonUtf8Domain"
+MayAccept(x) == x.class \in {"NonUtf8Domain", "UnusualOptions"}
 Judge == /\ outcome = "pending"
          /\ outcome' \in IF "Unchecked" \in Dev /\ case.class \in {"DomainBeyond", "PaddingBeyond", "ShorterThanFixed", "AddrTruncated"}
                            THEN {"panic"}
